@@ -184,6 +184,8 @@ func (f *Fam) Gen(r *rand.Rand, i int) string {
 			lim = uint64(2000 + r.Intn(200000))
 		case 2:
 			lim = ^uint64(0) - uint64(r.Intn(5000)) // near overflow
+		case 3:
+			return "new inf" // the infinite meter (no limit; only the uint64 overflow is reported)
 		default:
 			lim = 1 << 40
 		}
@@ -479,6 +481,11 @@ func (f *Fam) Exec(op string) (string, []common.Failure) {
 	cfg := stypes.KVGasConfig()
 	switch w[0] {
 	case "new":
+		if w[1] == "inf" {
+			f.reset(^uint64(0))
+			f.meter = stypes.NewInfiniteGasMeter()
+			return "ok", nil
+		}
 		lim, _ := strconv.ParseUint(w[1], 10, 64)
 		f.reset(lim)
 		return "ok", nil
